@@ -953,6 +953,14 @@ func tableEffect(e *Effect) bool {
 		return false
 	case strings.HasPrefix(e.Callee, "fmt."), strings.HasPrefix(e.Callee, "github.com/pkg/errors."), strings.HasPrefix(e.Callee, "errors."), strings.HasPrefix(e.Callee, "runtime/debug."), strings.HasPrefix(e.Callee, "strings."), strings.HasPrefix(e.Callee, "strconv.Itoa"):
 		return false
+	case strings.HasPrefix(e.Callee, "(time.Time)."), strings.HasPrefix(e.Callee, "(*time.Time)."), strings.HasPrefix(e.Callee, "(time.Duration)."), strings.HasPrefix(e.Callee, "math."),
+		e.Callee == "(*math/big.Int).Bytes", e.Callee == "(*math/big.Int).BitLen", e.Callee == "(*math/big.Int).String", e.Callee == "(*math/big.Int).Uint64", e.Callee == "(*math/big.Int).Int64", e.Callee == "(*math/big.Int).IsUint64", e.Callee == "(*math/big.Int).IsInt64":
+		// getters of value types: their results matter where they are used (guards, stores, arguments), not as effects
+		return false
+	case strings.HasPrefix(e.Callee, "bytes.Equal"), strings.HasPrefix(e.Callee, "bytes.Compare"), e.Callee == "(*math/big.Int).Cmp", e.Callee == "(*math/big.Int).Sign", e.Callee == "reflect.DeepEqual":
+		// pure comparisons: what they decide is in the guards and branches; which spelling
+		// (Equal / Compare != 0, Cmp == -1 / Sign() < 0) is not an effect
+		return false
 	case e.Callee == "dyn" || e.Callee == "":
 		return true
 	}
@@ -1043,6 +1051,13 @@ func (r *Run) effectContexts(fn *ssa.Function) map[string]*ctxRow {
 		if !tableEffect(e) {
 			continue
 		}
+		// where a call stands matters for calls into the module (and through interfaces, function
+		// values, and pointer-receiver methods of library objects — timers, batches, caches, locks, big.Int);
+		// a package-level or value-receiver library call (time.Time getters, math, encoding, …) can be
+		// hoisted or sunk freely
+		if e.Kind == "call" && !(r.P.Fn(e.Callee) != nil || strings.HasPrefix(e.Callee, "iface:") || e.Callee == "dyn" || e.Callee == "" || strings.HasPrefix(e.Callee, "(*sync.") || strings.HasPrefix(e.Callee, "builtin:") || strings.HasPrefix(e.Callee, "(*") || strings.HasPrefix(e.Callee, "math/big.New") || strings.HasPrefix(e.Canon, "defer ") || strings.HasPrefix(e.Canon, "go ")) {
+			continue
+		}
 		b := e.Instr.Block()
 		var cs []string
 		seen := map[string]bool{}
@@ -1054,19 +1069,21 @@ func (r *Run) effectContexts(fn *ssa.Function) map[string]*ctxRow {
 		}
 		// loop membership: an allocation or call hoisted out of (or pushed into) a loop body is a
 		// different program even when its canonical form is the same (one shared object vs one per element)
+		depth := 0
 		for _, g := range fi.guards {
 			if !isLoopHeader(g.Block) || g.Block.Succs[0] == g.Block.Succs[1] {
 				continue
 			}
 			for i := 0; i < 2; i++ {
 				if g.Block.Succs[i].Dominates(b) && g.Block.Dominates(g.Block.Succs[i]) && blockReaches(b, g.Block) {
-					s := "in-loop[" + g.Cond.String() + "]"
-					if !seen[s] {
-						seen[s] = true
-						cs = append(cs, s)
-					}
+					// which loop is identified by nesting only: the loop condition's spelling
+					// (range over s[:n] vs index < n) is not part of the context
+					depth++
 				}
 			}
+		}
+		if depth > 0 {
+			cs = append(cs, fmt.Sprintf("in-loop×%d", depth))
 		}
 		sort.Strings(cs)
 		ctx := strings.Join(cs, " & ")
